@@ -22,7 +22,7 @@ def coq_case(cs, o):
 
 REQUIRES = "Prox SolverStatus SolverKernels AugLag Lbfgs LMQR Panoc ZeroFpr Corr_PANOC Directions PanocDir Corr_PANOCDIR ZeroFprDir Corr_ZEROFPRDIR"
 FLAVOR = dict(name="ZEROFPRDIR", solver="ZeroFPRSolver", model="ZeroFprDir.zerofprD", files="ZeroFprDir.v + Directions.v", requires=REQUIRES, casetype="zdcase",
-              chk="chkzfprdir", dump="modelzfprdir", conv=(lambda ctx, cs: ZDirCase(cs, ctx.rng.random() < 0.35)), term=coq_case, key="zerofprdir")
+              chk="chkzfprdir", dump="modelzfprdir", conv=(lambda ctx, cs: ZDirCase(cs, ctx.rng.random() < (0.6 if cs.tag.endswith("/gamma") else 0.35))), term=coq_case, key="zerofprdir")
 
 def run(ctx):
     ctx.coverage["rule"] = ("whole runs of the real ZeroFPRSolver with the four shipped direction providers, generators of the PANOCDIR check (drv_solve problem family, "
